@@ -981,12 +981,41 @@ def _fuse_blocks_via_concat(
 
     # then we actually have to combine the groups of subsectors
 
+    def _get_subblock(new_sector, new_subkey):
+        try:
+            return new_blocks[new_sector][new_subkey]
+        except KeyError:
+            # subsector is missing - need to create zeros
+            shape_before = (
+                old_indices[ax].size_of(new_sector[new_axes[ax]])
+                for ax in axes_before
+            )
+            shape_new = (
+                # singlet groups are not fused and carry no new subinfo
+                new_indices[position + gg].size_of(new_sector[position + gg])
+                if gg in group_singlets
+                else new_indices[position + gg].subinfo.extents[
+                    new_sector[position + gg]
+                ][ss]
+                for gg, ss in enumerate(new_subkey)
+            )
+            shape_after = (
+                old_indices[ax].size_of(new_sector[new_axes[ax]])
+                for ax in axes_after
+            )
+            new_shape = (
+                *shape_before,
+                *shape_new,
+                *shape_after,
+            )
+            return _zeros(new_shape, **zeros_kwargs)
+
     def _recurse_concat(new_sector, g=0, subkey=()):
         if g in group_singlets:
             # singlet group, no need to concatenate
             new_subkey = subkey + ((new_sector[position + g],),)
             if g == num_groups - 1:
-                return new_blocks[new_sector][new_subkey]
+                return _get_subblock(new_sector, new_subkey)
             else:
                 return _recurse_concat(new_sector, g + 1, new_subkey)
 
@@ -998,33 +1027,10 @@ def _fuse_blocks_via_concat(
 
         if g == num_groups - 1:
             # final group (/level of recursion), get actual arrays
-            arrays = []
-            for new_subkey in next_subkeys:
-                try:
-                    array = new_blocks[new_sector][new_subkey]
-                except KeyError:
-                    # subsector is missing - need to create zeros
-                    shape_before = (
-                        old_indices[ax].size_of(new_sector[new_axes[ax]])
-                        for ax in axes_before
-                    )
-                    shape_new = (
-                        new_indices[position + gg].subinfo.extents[
-                            new_sector[position + gg]
-                        ][ss]
-                        for gg, ss in enumerate(new_subkey)
-                    )
-                    shape_after = (
-                        old_indices[ax].size_of(new_sector[new_axes[ax]])
-                        for ax in axes_after
-                    )
-                    new_shape = (
-                        *shape_before,
-                        *shape_new,
-                        *shape_after,
-                    )
-                    array = _zeros(new_shape, **zeros_kwargs)
-                arrays.append(array)
+            arrays = [
+                _get_subblock(new_sector, new_subkey)
+                for new_subkey in next_subkeys
+            ]
         else:
             # recurse to next group
             arrays = (
